@@ -562,6 +562,9 @@ func smbC04Case(c *h.Ctx, mk func() command_interface.CommandInterface, k *smbCa
 		}, k.sample())
 	}
 	smbReusedReceiver(c, mk, k, site, b1)
+	if k.WF {
+		smbStaleLengthRoute(c, mk, k, site, b1)
+	}
 	// a structure constructed NOW is the default structure, whatever was encoded or decoded before
 	{
 		fresh := mk()
@@ -595,6 +598,72 @@ func smbC04Case(c *h.Ctx, mk func() command_interface.CommandInterface, k *smbCa
 		c.Fail(site, "reencode:fresh-buffers", fmt.Sprintf("Marshal of the decoded fields: %s, first encoding: %s", smbHex(b3), smbHex(b1)), k.sample())
 	}
 	return nil
+}
+
+// smbStaleLengthRoute: SMB_STRING.Length is a derived component (the encoders take the length from Buffer): a caller that
+// assigns Buffer directly leaves Length at 0 or at the length of an earlier value -- the encoding is the same (ref: the
+// library's own bytes for consistent lengths), on every call.
+func smbStaleLengthRoute(c *h.Ctx, mk func() command_interface.CommandInterface, k *smbCase, site string, ref []byte) {
+	for _, stale := range []int{0, 3} {
+		x2, err := smbBuild(mk, k)
+		if err != nil {
+			return
+		}
+		n := smbStaleLengths(reflect.ValueOf(x2), stale)
+		if n == 0 {
+			return
+		}
+		for call := 1; call <= 2; call++ {
+			bs, es, ps := smbMarshalInMessage(x2)
+			c.Exec(1)
+			if ps != "" || es != nil || !bytes.Equal(bs, ref) {
+				what := "0"
+				if stale != 0 {
+					what = "the length of another value"
+				}
+				c.Fail(site, fmt.Sprintf("stale-string-length:call%d", call), fmt.Sprintf("with Length = %s in %d string(s) whose Buffer was assigned directly, Marshal #%d gives %s %v %s; with consistent lengths: %s", what, n, call, smbHex(bs), es, ps, smbHex(ref)), k.sample())
+				break
+			}
+		}
+	}
+}
+
+// smbStaleLengths walks a command structure and gives every SMB_STRING with a non-empty Buffer a Length that is not the
+// length of its Buffer (0, or len+delta); returns how many strings were changed.
+func smbStaleLengths(v reflect.Value, delta int) int {
+	n := 0
+	switch v.Kind() {
+	case reflect.Ptr, reflect.Interface:
+		if !v.IsNil() {
+			n += smbStaleLengths(v.Elem(), delta)
+		}
+	case reflect.Struct:
+		if v.CanAddr() {
+			if s, ok := v.Addr().Interface().(*types.SMB_STRING); ok {
+				if len(s.Buffer) > 0 {
+					if delta == 0 {
+						s.Length = 0
+					} else {
+						s.Length = types.USHORT(len(s.Buffer) + delta)
+					}
+					return 1
+				}
+				return 0
+			}
+		}
+		for i := 0; i < v.NumField(); i++ {
+			if v.Type().Field(i).PkgPath == "" {
+				n += smbStaleLengths(v.Field(i), delta)
+			}
+		}
+	case reflect.Slice, reflect.Array:
+		if v.Type().Elem().Kind() != reflect.Uint8 {
+			for i := 0; i < v.Len(); i++ {
+				n += smbStaleLengths(v.Index(i), delta)
+			}
+		}
+	}
+	return n
 }
 
 // smbDirInfoLists: the two structures whose data block is a LIST of SMB_Directory_Information records (FindResponse,
